@@ -15,68 +15,6 @@ import (
 	"strings"
 )
 
-// ---------- deep copy ----------
-
-func (m *mods) clone() *mods {
-	if m == nil {
-		return nil
-	}
-	c := &mods{}
-	for _, t := range m.tables {
-		nt := &replTable{sender: t.sender, full: map[addr][]replVal{}, local: map[int][]replVal{}}
-		for k, v := range t.full {
-			nt.full[k] = append([]replVal(nil), v...)
-		}
-		for k, v := range t.local {
-			nt.local[k] = append([]replVal(nil), v...)
-		}
-		nt.order = append([]replKey(nil), t.order...)
-		c.tables = append(c.tables, nt)
-	}
-	return c
-}
-
-func (b *rcptBlock) clone() *rcptBlock {
-	if b == nil {
-		return nil
-	}
-	c := &rcptBlock{id: b.id, mods: b.mods.clone(), reject: b.reject, hasChk: b.hasChk}
-	for _, t := range b.targets {
-		c.targets = append(c.targets, target{script: t.script, reroute: t.reroute.clone()})
-	}
-	return c
-}
-
-func cloneItems(in []item) []item {
-	var out []item
-	for _, it := range in {
-		n := item{kind: it.kind, table: it.table, src: it.src.clone(), rcpt: it.rcpt.clone()}
-		if it.keys != nil {
-			n.keys = map[addr]bool{}
-			for k := range it.keys {
-				n.keys[k] = true
-			}
-		}
-		n.rules = append([]matchRule(nil), it.rules...)
-		out = append(out, n)
-	}
-	return out
-}
-
-func (s *srcBlock) clone() *srcBlock {
-	if s == nil {
-		return nil
-	}
-	return &srcBlock{id: s.id, mods: s.mods.clone(), hasChk: s.hasChk, items: cloneItems(s.items), implicit: s.implicit.clone()}
-}
-
-func (p *pipe) clone() *pipe {
-	if p == nil {
-		return nil
-	}
-	return &pipe{depth: p.depth, mods: p.mods.clone(), hasChk: p.hasChk, items: cloneItems(p.items), implicit: p.implicit.clone()}
-}
-
 // ---------- one-step reductions ----------
 
 // simplerSpellings lists spellings of x that are canonical in one more dimension than kind.
@@ -141,13 +79,66 @@ func (rd *reducer) mods(pm **mods) {
 		*pm = nil
 		return
 	}
+	if m.group != nil {
+		if rd.hit() { // drop the reference to the named group
+			m.group = nil
+			if len(m.tables) == 0 {
+				*pm = nil
+			}
+			return
+		}
+		if len(m.tables) > 0 && rd.hit() { // keep only the reference
+			m.tables = nil
+			return
+		}
+		if rd.hit() { // write the group's tables inline instead
+			m.tables = m.effective()
+			m.group = nil
+			if len(m.tables) == 0 {
+				*pm = nil
+			}
+			return
+		}
+		if m.groupLast && rd.hit() {
+			m.groupLast = false
+			return
+		}
+		g := m.group
+		for li, x := range g.layout {
+			if x < 0 && rd.hit() { // one no-op member less
+				g.layout = append(g.layout[:li:li], g.layout[li+1:]...)
+				return
+			}
+		}
+		for ti := range g.tables {
+			if rd.hit() { // one real member less
+				g.tables = append(g.tables[:ti:ti], g.tables[ti+1:]...)
+				var nl []int
+				for _, x := range g.layout {
+					switch {
+					case x == ti:
+					case x > ti:
+						nl = append(nl, x-1)
+					default:
+						nl = append(nl, x)
+					}
+				}
+				g.layout = nl
+				return
+			}
+		}
+	}
 	for ti := range m.tables {
-		if len(m.tables) > 1 && rd.hit() {
+		if (len(m.tables) > 1 || m.group != nil) && rd.hit() {
 			m.tables = append(m.tables[:ti:ti], m.tables[ti+1:]...)
 			return
 		}
 	}
-	for _, t := range m.tables {
+	for _, t := range m.effective() {
+		if t.named && rd.hit() {
+			t.named = false
+			return
+		}
 		for oi, k := range t.order {
 			if len(t.order) > 1 && rd.hit() {
 				if k.isLocal {
@@ -190,7 +181,30 @@ func (rd *reducer) mods(pm **mods) {
 	}
 }
 
+func (rd *reducer) style(st *style) {
+	if st.order != 0 && rd.hit() {
+		st.order = 0
+		return
+	}
+	if st.chkStyle != 0 && rd.hit() {
+		st.chkStyle = 0
+		return
+	}
+}
+
 func (rd *reducer) rules(it *item) {
+	if len(it.extra) > 0 && rd.hit() {
+		it.extra = nil
+		return
+	}
+	if it.split && rd.hit() {
+		it.split = false
+		return
+	}
+	if it.blk && rd.hit() {
+		it.blk = false
+		return
+	}
 	for ri := range it.rules {
 		if len(it.rules) > 1 && rd.hit() {
 			it.rules = append(it.rules[:ri:ri], it.rules[ri+1:]...)
@@ -222,6 +236,13 @@ func (rd *reducer) rules(it *item) {
 
 func (rd *reducer) rcpt(b *rcptBlock) {
 	rd.mods(&b.mods)
+	if rd.done {
+		return
+	}
+	rd.style(&b.st)
+	if rd.done {
+		return
+	}
 	if b.hasChk && rd.hit() {
 		b.hasChk = false
 		return
@@ -246,6 +267,13 @@ func (rd *reducer) rcpt(b *rcptBlock) {
 
 func (rd *reducer) src(s *srcBlock) {
 	rd.mods(&s.mods)
+	if rd.done {
+		return
+	}
+	rd.style(&s.st)
+	if rd.done {
+		return
+	}
 	if s.hasChk && rd.hit() {
 		s.hasChk = false
 		return
@@ -276,6 +304,13 @@ func (rd *reducer) src(s *srcBlock) {
 
 func (rd *reducer) pipe(p *pipe) {
 	rd.mods(&p.mods)
+	if rd.done {
+		return
+	}
+	rd.style(&p.st)
+	if rd.done {
+		return
+	}
 	if p.hasChk && rd.hit() {
 		p.hasChk = false
 		return
@@ -330,11 +365,96 @@ func spellClass(kind string) []string {
 
 type featSet map[string]bool
 
+// sharingFeat names the configuration-level sharing and the spellings left in a witness.
+func (f featSet) sharingFeat(top *pipe) {
+	groups := map[*modGroup]int{}
+	tables := map[*replTable]int{}
+	for _, sl := range allScopes(top) {
+		m := *sl.m
+		if m != nil && m.group != nil {
+			groups[m.group]++
+		}
+		for _, t := range m.effective() {
+			tables[t]++
+		}
+		if *sl.chk && sl.st.chkStyle != 0 {
+			f["written:check-group-reference"] = true
+		}
+		if sl.st.order != 0 {
+			f["written:directive-order"] = true
+		}
+	}
+	for g, n := range groups {
+		if n >= 2 {
+			f["shared:modifiers-group"] = true
+		}
+		if len(g.layout) > len(g.tables) {
+			f["modifiers-group:no-op-members"] = true
+		}
+	}
+	for _, n := range tables {
+		if n >= 2 {
+			f["shared:rewrite-table"] = true
+		}
+	}
+	pipes := map[*pipe]int{}
+	for _, p := range allPipes(top) {
+		for _, s := range p.srcBlocks() {
+			for _, b := range s.rcptBlocks() {
+				for _, t := range b.targets {
+					if t.reroute != nil {
+						pipes[t.reroute]++
+						if t.reroute.named {
+							f["written:named-pipeline"] = true
+						}
+					}
+				}
+			}
+		}
+	}
+	for _, n := range pipes {
+		if n >= 2 {
+			f["shared:nested-pipeline"] = true
+		}
+	}
+	ins := map[int]int{}
+	allItems(top, func(it *item, _ string) {
+		if it.kind == "in" {
+			ins[it.table]++
+			if it.blk {
+				f["written:in-table-block"] = true
+			}
+		}
+		if it.split && len(it.rules) > 1 {
+			f["written:rules-as-separate-directives"] = true
+		}
+		if len(it.extra) > 0 {
+			f["written:rule-repeated"] = true
+		}
+	})
+	for _, n := range ins {
+		if n >= 2 {
+			f["shared:in-table"] = true
+		}
+	}
+}
+
 func (f featSet) modsFeat(m *mods, scope string) {
 	if m == nil {
 		return
 	}
-	for _, t := range m.tables {
+	if m.group != nil {
+		f["written:modify-group-reference"] = true
+		if m.groupLast {
+			f["written:modify-group-reference-last"] = true
+		} else if len(m.tables) > 0 {
+			f["written:modify-group-reference-then-inline"] = true
+		}
+	}
+	for _, t := range m.effective() {
+		if t.named {
+			f["written:rewrite-table-reference"] = true
+		}
 		name := "replace_rcpt"
 		if t.sender {
 			name = "replace_sender"
@@ -435,10 +555,9 @@ type shrinkResult struct {
 
 // shrink reduces (sc.top, env restricted to recipient i) while some discrepancy persists.
 func (sc *scenario) shrink(env envelope, i int, disc0 string) shrinkResult {
-	cur := sc.top.clone()
+	cur := newCloner().pipe(sc.top)
 	e := envelope{sender: env.sender, senderText: env.senderText, senderKind: env.senderKind,
 		rcpts: []addr{env.rcpts[i]}, rcptText: []string{env.rcptText[i]}, rcptKind: []string{env.rcptKind[i]}}
-	seq := 0
 	// check runs one candidate through the real loader and pipeline.
 	check := func(top *pipe, e envelope) (string, string, string) {
 		var und []string
@@ -446,12 +565,12 @@ func (sc *scenario) shrink(env envelope, i int, disc0 string) shrinkResult {
 		if len(und) > 0 {
 			return "", "", ""
 		}
-		seq++
-		sub := &scenario{tag: fmt.Sprintf("%s_s%d", sc.tag, seq), al: sc.al, g: sc.g, top: top}
+		sc.shrinkSeq++ // instance names stay unique over all minimisations of the case
+		sub := &scenario{tag: fmt.Sprintf("%s_s%d", sc.tag, sc.shrinkSeq), al: sc.al, g: sc.g, top: top}
 		sub.load()
 		defer sub.release()
 		if sub.loadErr != nil {
-			return "", "", sub.text
+			return "", "", "# LOAD ERROR: " + sub.loadErr.Error() + "\n" + sub.text
 		}
 		rt := &router{al: sc.al}
 		startErr, obs := sub.drive(e, 0)
@@ -461,7 +580,7 @@ func (sc *scenario) shrink(env envelope, i int, disc0 string) shrinkResult {
 	disc, what, text := check(cur, e)
 	if disc == "" {
 		// not reproducible with the single recipient alone
-		return shrinkResult{sig: disc0 + "/not-minimised", disc: disc0}
+		return shrinkResult{sig: disc0 + "/not-minimised", disc: disc0, config: text}
 	}
 	steps := 0
 	for round := 0; round < 400; round++ {
@@ -496,7 +615,7 @@ func (sc *scenario) shrink(env envelope, i int, disc0 string) shrinkResult {
 			}
 		}
 		for k := 0; ; k++ {
-			cand := cur.clone()
+			cand := newCloner().pipe(cur)
 			rd := &reducer{al: sc.al, k: k}
 			rd.pipe(cand)
 			if !rd.done {
@@ -515,6 +634,7 @@ func (sc *scenario) shrink(env envelope, i int, disc0 string) shrinkResult {
 	}
 	f := featSet{}
 	f.pipeFeat(cur, "")
+	f.sharingFeat(cur)
 	for _, c := range spellClass(e.senderKind) {
 		f["spelled:sender:"+c] = true
 	}
